@@ -213,19 +213,51 @@ class PhaseSpaceGenerator(object):
         if len(self.mass_range) == 0:
             pass
 
-        def f(x):
-            return float(-self.get_weight(x))
+        if len(self.mass_range) == 0:
+            return self.m_wtMax
 
         old_gen = self.mass_generator
         self.mass_generator = [None for i in old_gen]
-        x0 = self.generate_mass(1)
-        x0 = np.stack([i.numpy()[0] for i in x0])
-
+        # The weight is not concave and, for many bodies or close to
+        # threshold, tiny compared with the default tolerances of the
+        # minimizer, which then stops at (or near) a single random start
+        # point and the returned "maximum" is exceeded by most events.
+        # Scan a random sample first, polish the best point in variables
+        # scaled to the unit box with the objective normalised to one.
+        ms = self.generate_mass(10000)
         self.mass_generator = old_gen
+        ws = self.get_weight(ms).numpy()
+        ws = np.where(np.isfinite(ws), ws, 0.0)
+        idx = int(np.argmax(ws))
+        w0 = float(ws[idx])
+        if w0 <= 0:
+            return self.m_wtMax
+        x0 = np.stack([i.numpy()[idx] for i in ms])
+        lower = np.array([i for i, _ in self.mass_range])
+        span = np.array([j - i for i, j in self.mass_range])
+
+        def f(t):
+            x = lower + span * t
+            # outside the physical ordering M_{i+1} >= M_i + m_{i+1} the
+            # break-up momentum formula is meaningless (and can be large)
+            mass_t = [self.m_mass[-1], *x, self.m0]
+            for i in range(self.m_nt - 1):
+                if mass_t[i + 1] < mass_t[i] + self.m_mass[-i - 2]:
+                    return 0.0
+            w = float(self.get_weight(x))
+            if not np.isfinite(w):
+                return 0.0
+            return -w / w0
+
         from scipy.optimize import minimize
 
-        ret = minimize(f, np.array(x0), bounds=self.mass_range)
-        self.m_wtMax *= (-ret.fun) * 1.001
+        ret = minimize(
+            f, (x0 - lower) / span, bounds=[(0.0, 1.0) for _ in lower]
+        )
+        best = w0
+        if np.isfinite(ret.fun):
+            best = max(best, -ret.fun * w0)
+        self.m_wtMax *= best * 1.001
         return self.m_wtMax
 
     def set_decay(self, m0, mass):
